@@ -8,23 +8,23 @@ DEV = {
  'C01': 'as designed; the sweep uses 11 boundary values per type in the quick tier and the full pools in the thorough tier; truth values of narrowing assignments (value zero in the narrow type, non-zero in the register) added after seeded change C01-m1 was missed once; bit-field operands read directly and as the value of =, op=, ++/-- and comma expressions added after T202',
  'C02': 'as designed, without the planned UBSan build of the references (definedness decided exactly by the model); added after the hunter round: FPU-state probes after conversions, static conversions, enum and bit-field operands, hexadecimal floating constants',
  'C03': 'as designed; selection/iteration statement scopes and block-scope function declarations added after T61/T62',
- 'C04': 'the Python shadow map was not built: leaf dumps are compared with the gcc == clang consensus (objects are memset first, so every byte read is determined); packed + bit-field types excluded (D12b/c); compound-literal postfix forms, sizeof of compound literals and tagged members added after the first hunter round, parameters of variably modified type (`int a[r][c]`, `int (*p)[c]`) after T177/D77',
- 'C05': 'as designed (stack machine with object-value model; static == static local == automatic == compound literal == model == gcc == clang); bit-fields up to 64 bits, nested range designators, wide strings (u/U/L), empty unions added after the hunter round; not generated: flexible array members',
+ 'C04': 'the Python shadow map was not built: leaf dumps are compared with the gcc == clang consensus (objects are memset first, so every byte read is determined); packed + bit-field types excluded (D12b/c); compound-literal postfix forms, sizeof of compound literals and tagged members added after the first hunter round, parameters of variably modified type (`int a[r][c]`, `int (*p)[c]`) after T177/D77; array variables of at least 16 bytes over every element type and 2-D shapes (the alignment probe had only `char` arrays) after seeded change C04-m5; pointer values stored into union members are small integers, not addresses (section 8)',
+ 'C05': 'as designed (stack machine with object-value model; static == static local == automatic == compound literal == model == gcc == clang); bit-fields up to 64 bits, nested range designators, wide strings (u/U/L), empty unions added after the hunter round; not generated: flexible array members; an unnamed bit-field directly after a member (15 % of members) after seeded change C05-m5',
  'C06': 'as designed; additionally (clang,gcc) must equal (gcc,gcc) for a signature to count; enum scalars, packed and over-aligned aggregates, padding-only eightbytes, zero-size aggregates (with and without an alignment) and unprototyped first declarations added after T47-T51, T89, T119-T121, T132, T175',
  'C07': '11 contexts; `#if` is covered by C10 with the same integer model in preprocessor mode; floating constant expressions added after T2/T3; an enumerated must-reject set (index, width or alignment of 2^32 + k in 7 contexts, counted only if gcc and clang reject) added after T192',
  'C08': 'as designed; declarations inside member lists that declare a tag and no member (qualified, attributed, forward) added after T152',
- 'C09': 'string spacing compared loosely when a `#` operand can hold already-expanded material (section 4, C09 **O**; the strict rule was a false alarm, section 8); function-like names without parentheses added after seeded change C09-m2; escapes in stringized literals, empty object-like macros before `(`, `__VA_OPT__`, comma pastes added after the hunter round',
- 'C10': 'as designed (null directives with junk, `#include_next` chains of 2-3 directories and from the includer directory added after T40-T46, directories named twice and unsuffixed decimal constants above INTMAX_MAX after T170/T172, nested search directories after T211; the marker pattern missed the markers of the #include_next chains themselves until then - they were checked only through the headers they include); the model predicts the marker sequence of conditional trees exactly (gcc and clang must agree with it)',
+ 'C09': 'string spacing compared loosely when a `#` operand can hold already-expanded material (section 4, C09 **O**; the strict rule was a false alarm, section 8); function-like names without parentheses added after seeded change C09-m2; escapes in stringized literals, empty object-like macros before `(`, `__VA_OPT__`, comma pastes added after the hunter round; `#__VA_ARGS__` after `__VA_OPT__` in one body after seeded change C09-m5',
+ 'C10': 'as designed (null directives with junk, `#include_next` chains of 2-3 directories and from the includer directory added after T40-T46, directories named twice and unsuffixed decimal constants above INTMAX_MAX after T170/T172, nested search directories after T211; the marker pattern missed the markers of the #include_next chains themselves until then - they were checked only through the headers they include); the model predicts the marker sequence of conditional trees exactly (gcc and clang must agree with it); guards whose `#ifndef` continues with `#elif`, `#if !defined` guards, guards followed by `#ifdef`, commented guards (15 header shapes) after seeded change C10-m5',
  'C11': 'no libFuzzer target for unicode.c: all 1,114,112 code points are enumerated instead; multi-character constants, pp-numbers with extended characters and floating constants (decimal/hex x suffixes) added after T143, T144 and seeded change C11-m4',
  'C12': 'as designed; objects are compared after `objcopy -g` between stages (they embed the working directory) and unstripped between two runs of one stage; link option sets and constant-expression corner inputs added after T135-T137',
- 'C13': 'token ddmin not built (Hypothesis shrinks the edit list; seeds are 60-line windows); bracket-truncation mutator and generated C09/C10 seeds added after seeded change C13-m1; split-line and marker byte edits, arithmetic-corner seeds (INT64_MIN % -1, 64-bit case labels) added after T40/T41 and seeded changes C13-m3/m4',
+ 'C13': 'token ddmin not built (Hypothesis shrinks the edit list; seeds are 60-line windows); bracket-truncation mutator and generated C09/C10 seeds added after seeded change C13-m1; split-line and marker byte edits, arithmetic-corner seeds (INT64_MIN % -1, 64-bit case labels) added after T40/T41 and seeded changes C13-m3/m4; a valid seed made of never-evaluated `#elif`/nested `#if` expressions after seeded change C13-m5',
  'C14': '7 input kinds (incl. a pre-built .o); bundles of 2-12 drivers; exactness of the output set and link completeness added (section 7)',
  'C15': 'the independent symbol-table model was replaced by comparison with gcc and clang objects (name, kind, size of defined external symbols; set of emitted static inline functions) plus program output in 5 configurations; declarations mixing object and function declarators (file and block scope), `extern` after `static`, functions named only in unevaluated operands added after T160-T165',
  'C16': 'as designed (layers A = ptrace schedules, B = thread stress; the sequential layer is the zero-switch schedule of A); float/double objects added after T30/T31; the value returned by atomic_fetch_* is checked since be76dbf, and a ticket-dispenser stress program was added after seeded change C16-m4',
  'C17': 'rapidcheck replaced by Hypothesis + native driver (2.2); parser scope tables have their own history generator (block-scope and prototype-scope declarations over colliding identifiers, model = stack of dicts), added after D77/T131',
  'C18': 'as designed; `.loc` numbering after `#line` must agree with `__LINE__` numbering (added after T128); `__LINE__` in a macro invoked over several lines is not probed: gcc and clang disagree (first vs last line of the invocation)',
  'C19': 'as designed; 72 spellings x 9 boundary forms (numbers ending in `.`, UTF-8 identifiers added after T138 and seeded change C19-m4)',
- 'C20': 'as designed; alloca forms only (no VLA form); long double operands pending across 3-12 nested operations and across calls, members of statement expressions added after D45/T145/T146',
+ 'C20': 'as designed; alloca and VLA forms, since round 3 also evaluated while operands of the enclosing expression or call are pending on the stack (5 forms: the pending values must survive the allocation, `rsp` may only go down, by a bounded amount); long double operands pending across 3-12 nested operations and across calls, members of statement expressions added after D45/T145/T146',
 }
 
 
